@@ -100,25 +100,30 @@ def version2build (env : Env) (s : Str) : Option (Str × Str) :=
   | some (ab, r) => (build r).map fun (b, r1) => (ab ++ b, r1)
   | none => none
 
+/-- an optional single char satisfying `p`: (that char or nothing, rest). -/
+def optChar (p : Char → Bool) (s : Str) : Str × Str :=
+  match s with
+  | c :: r => if p c then ([c], r) else ([], s)
+  | [] => ([], [])
+
 /-- `-?\d+\.?\d*(?:[eE][+-]?\d+)?` -/
 def number (env : Env) (s : Str) : Option (Str × Str) :=
-  let (sign, r0) : Str × Str := match s with | '-' :: r => (['-'], r) | _ => ([], s)
-  match many1 env.isDigit r0 with
+  let sg := optChar (· == '-') s
+  match many1 env.isDigit sg.2 with
   | none => none
   | some (d, r1) =>
-    let (dot, r2) : Str × Str := match r1 with | '.' :: r => (['.'], r) | _ => ([], r1)
-    let (frac, r3) := takeWhile env.isDigit r2
-    let mant := sign ++ d ++ dot ++ frac
-    match r3 with
+    let dt := optChar (· == '.') r1
+    let fr := takeWhile env.isDigit dt.2
+    let mant := sg.1 ++ d ++ dt.1 ++ fr.1
+    match fr.2 with
     | e :: r4 =>
       if e == 'e' || e == 'E' then
-        let (es, r5) : Str × Str := match r4 with
-          | '+' :: r => (['+'], r) | '-' :: r => (['-'], r) | _ => ([], r4)
-        match many1 env.isDigit r5 with
-        | some (ed, r6) => some (mant ++ e :: es ++ ed, r6)
-        | none => some (mant, r3)
-      else some (mant, r3)
-    | [] => some (mant, r3)
+        let es := optChar (fun c => c == '+' || c == '-') r4
+        match many1 env.isDigit es.2 with
+        | some (ed, r6) => some (mant ++ e :: es.1 ++ ed, r6)
+        | none => some (mant, fr.2)
+      else some (mant, fr.2)
+    | [] => some (mant, fr.2)
 
 /-- body of `"(?:[^"\\]|\\.)*"` after the opening quote: returns (raw body, rest after closing quote).
 `.` does not match a newline. -/
